@@ -1,6 +1,6 @@
 (** Entry points used by the correspondence driver: one model, one correspondence
     predicate and one oracle per case family.  Definitions only. *)
-From TD Require Import Base.Prelude Base.Codec Model.Hist Spec.HistSpec Model.IterRun Spec.Ideal Model.GeomRun Spec.GeomSpec Model.OpsRun Spec.OpsSpec.
+From TD Require Import Base.Prelude Base.Codec Model.Hist Spec.HistSpec Model.IterRun Spec.Ideal Model.GeomRun Spec.GeomSpec Model.OpsRun Spec.OpsSpec Model.Serde.
 
 (** case families (which harness runner produced the case) *)
 Definition FAM_HIST : N := 1.
@@ -9,6 +9,8 @@ Definition FAM_ITER : N := 3.
 Definition FAM_VIEW : N := 4.
 Definition FAM_ACCESS : N := 5.
 Definition FAM_OPS : N := 6.
+Definition FAM_SERDE : N := 7.
+Definition FAM_ROUNDTRIP : N := 8.
 
 Definition model (fam : N) (inp : list N) : list N :=
   if (fam =? FAM_HIST)%N then hist_model inp
@@ -17,6 +19,8 @@ Definition model (fam : N) (inp : list N) : list N :=
   else if (fam =? FAM_VIEW)%N then view_model inp
   else if (fam =? FAM_ACCESS)%N then access_model inp
   else if (fam =? FAM_OPS)%N then ops_model inp
+  else if (fam =? FAM_SERDE)%N then serde_model inp
+  else if (fam =? FAM_ROUNDTRIP)%N then roundtrip_model inp
   else BAD_CASE.
 
 (** correspondence: the implementation's observation equals the model's prediction *)
@@ -34,4 +38,6 @@ Definition oracle (prop fam : N) (inp obs : list N) : bool :=
   else if (fam =? FAM_VIEW)%N then oracle_view inp obs
   else if (fam =? FAM_ACCESS)%N then oracle_access inp obs
   else if (fam =? FAM_OPS)%N then oracle_ops inp obs
+  else if (fam =? FAM_SERDE)%N then oracle_serde inp obs
+  else if (fam =? FAM_ROUNDTRIP)%N then oracle_roundtrip inp obs
   else false.
